@@ -45,12 +45,13 @@ use std::io::{Read, Seek};
 use std::time::{Duration, Instant};
 
 use crate::chunk_discovery::{ChunkDiscovery, discover_chunks};
+use crate::chunk_id::ChunkId;
 use crate::chunks::mh2o::Mh2oChunk;
 use crate::chunks::{
     DoodadPlacement, MampChunk, MbbbChunk, MbmhChunk, MbmiChunk, MbnvChunk, McalChunk, McinChunk,
     MclyChunk, McnkChunk, MfboChunk, MhdrChunk, MtxfChunk, MtxpChunk, WmoPlacement,
 };
-use crate::error::Result;
+use crate::error::{AdtError, Result};
 use crate::file_type::AdtFileType;
 use crate::version::AdtVersion;
 
@@ -791,6 +792,13 @@ pub fn parse_adt_with_metadata<R: Read + Seek>(reader: &mut R) -> Result<(Parsed
     let discovery_start = Instant::now();
     let discovery = discover_chunks(reader)?;
     let discovery_duration = discovery_start.elapsed();
+
+    // Every ADT file - root, split texture/object file or LOD file - starts with MVER.
+    // Without it the input is not an ADT; falling through would classify arbitrary bytes
+    // as a (content-free) LOD file and report success.
+    if !discovery.has_chunk(ChunkId::MVER) {
+        return Err(AdtError::MissingRequiredChunk(ChunkId::MVER));
+    }
 
     // Detect version and file type
     let version = AdtVersion::from_discovery(&discovery);
